@@ -333,7 +333,7 @@ def _history(seed, steps, chunk):
         d = rnd.choice(devs)
         v = rnd.choice(list(d._vectors.values()))
         e = rnd.choice(list(v._elements.values()))
-        op = rnd.choice(["assign", "assign", "set_value", "state", "vec_enabled", "group_enabled", "client_write", "client_write", "handshake", "bool", "selected"])
+        op = rnd.choice(["assign", "assign", "set_value", "state", "vec_enabled", "group_enabled", "client_write", "client_write", "handshake", "handshake_device", "bool", "selected"])
         kindn = v.__class__.__name__
         try:
             if op in ("assign", "set_value"):
@@ -378,6 +378,12 @@ def _history(seed, steps, chunk):
             elif op == "handshake":
                 log.append("handshake")
                 net.send_message(indi.message.GetProperties(version="1.7"))
+            elif op == "handshake_device":
+                # a getProperties naming one device (what waitforevent's polling and snoop_device send) must not narrow what the client receives afterwards
+                log.append("getProperties device=%s" % d.name)
+                net.send_message(indi.message.GetProperties(version="1.7", device=d.name))
+                if snoop and d is not devs[0]:
+                    devs[0].snoop_device(d.name)
             elif op == "client_write":
                 cv = net.devices.get(d.name) and net.devices[d.name].vectors.get(v.name)
                 if cv is None or kindn in ("LightVector",) or not cv.elements:
